@@ -176,11 +176,23 @@ class C05(Check):
             q = ['EdgeEnergy %d %d N' % (Z, sh) for Z in Zs for sh in range(28)] + ['ElectronConfig %d %d N' % (Z, sh) for Z in Zs for sh in range(31)]
             pv = {l[:-2]: core.parse_answer(o)['vals'][0] for l, o in zip(q, ctx.run_c(q, exe=kexe))}
             kl = []; kplan = []
+            kends = {}
+            try:
+                vq = ['vec E_Photo_Partial_Kissel %d' % (Z * 31 + sh) for Z in Zs for sh in range(31)]
+                for l_, o_ in zip(vq, ctx.run_model(vq, dump='dump' + suf)):
+                    xs_ = [unhx(t_) for t_ in o_.split(' ')[1:] if t_]
+                    if xs_: i_ = int(l_.split()[2]); kends[(i_ // 31, i_ % 31)] = math.exp(xs_[-1])
+            except core.BuildError:
+                pass
             for Z in Zs:
                 ed = sorted({pv['EdgeEnergy %d %d' % (Z, sh)] for sh in range(28) if pv['EdgeEnergy %d %d' % (Z, sh)] > 0})
                 Es = [e * f for e in ed for f in (1 - 1e-6, 1 + 1e-6)] + [(a * b) ** 0.5 for a, b in zip(ed, ed[1:])] + [0.05, 0.09, 0.5, 5.0, 50.0, 500.0, 900.0]
                 if ctx.tier != 'thorough': Es = ctx.rng.sample(Es, min(len(Es), 40))
                 occ = [(sh, pv['ElectronConfig %d %d' % (Z, sh)]) for sh in range(31) if pv['ElectronConfig %d %d' % (Z, sh)] > 1e-6]
+                # the ends of the element's sub-shell tables (last knots, read from the loaded tables): both sides of every end and the
+                # middle of every window between two different ends — there some parts are defined and others are not
+                ends = sorted({e_ for sh, _ in occ for e_ in [kends.get((Z, sh))] if e_})
+                Es += [e_ * f for e_ in ends for f in (1 - 1e-9, 1 + 1e-9)] + [(a * b) ** 0.5 for a, b in zip(ends, ends[1:])]
                 for E in Es:
                     kplan.append((Z, E, occ))
                     for mode in 'EN':
